@@ -4,7 +4,9 @@
 // A case is   <base> <layer>* ; op ; op ; ...
 //   base:   mem | ldb | pbl            (memorydb, leveldb in a temp dir, pebble in a temp dir;
 //           ldb! / pbl! = a fresh instance opened for this history only and removed afterwards,
-//           ldb / pbl = an instance kept open, wiped and verified empty before the history)
+//           ldb / pbl = an instance kept open, wiped and verified empty before the history;
+//           ldb!<v> / pbl!<v> choose constructor options, see freshEngine; mem! = memorydb through
+//           memorydb.NewProducer with a shared namespace)
 //   layer:  t<hex> (table.New(x, prefix); "t-" = empty prefix) | f (flushable.Wrap) | s (synced.WrapStore)
 //           | z (flushable.NewLazy whose producer returns the store below)
 //           layers are listed bottom-up; depth 0 is the top of the stack.
@@ -14,6 +16,7 @@
 //           init d (LazyFlushable.InitUnderlyingDb) | flush d | drop d | nfp d | snap h | sget i k | shas i k | sit i prefix start
 //           compact h start limit      (range recorded at the base, not forwarded)
 //           ecompact h start limit     (forwarded to the engine: observation E ok|err)
+//           stat h <n>                 (Stat(property n): observation S ok|err)
 //           reopen                     (engine bases: Close, reopen the same directory; skipped while
 //                                       snapshots or live iterators of this history are outstanding)
 //           lit id h prefix start | lnext id n | lrel id      (iterator kept alive across later ops)
@@ -134,6 +137,8 @@ type engine struct {
 	dead bool // could not be reopened / closed cleanly: never reused
 }
 
+var nsCounter int
+
 var (
 	engMu   sync.Mutex
 	engines = map[string]*engine{}
@@ -166,6 +171,126 @@ func openEngine(kind string) *engine {
 	return &engine{db: db, dir: dir}
 }
 
+// freshEngine opens an engine for one history with one of several constructor configurations:
+//   0: through <pkg>.NewProducer(datadir, getCacheFdLimit).OpenDB, cache 0 / fds 0 (minimums)
+//   1: through the producer, cache 12 MiB + 1 (a joint of adjustCache), fds 1
+//   2: New(path, 1 GiB, 1000, close, drop) with both callbacks set
+//   3: New(path, 1, 16, nil, nil)
+//   4: New(path, 153 MiB, 15, close, nil)
+// and remembers what must hold when it is closed and dropped (checked in finish).
+type freshInfo struct {
+	variant     int
+	names       func() []string
+	closeCalls  int
+	dropCalls   int
+	hasCloseFn  bool
+	hasDropFn   bool
+	viaProducer bool
+}
+
+func freshEngine(kind string, variant int, stat func(string)) (*engine, *freshInfo) {
+	root, err := os.MkdirTemp(tmpRoot(), "vh-kv-"+kind+"-")
+	if err != nil {
+		panic(err)
+	}
+	fi := &freshInfo{variant: variant}
+	stat(fmt.Sprintf("engine_%s_variant_%d", kind, variant))
+	var db kvdb.Store
+	path := root + "/db"
+	closeFn := func() error { fi.closeCalls++; return nil }
+	dropFn := func() { fi.dropCalls++ }
+	open := func(cache, fds int, cf func() error, df func()) (kvdb.Store, error) {
+		if err := os.MkdirAll(path, 0700); err != nil {
+			return nil, err
+		}
+		fi.hasCloseFn, fi.hasDropFn = cf != nil, df != nil
+		if kind == "ldb" {
+			return leveldb.New(path, cache, fds, cf, df)
+		}
+		return pebble.New(path, cache, fds, cf, df)
+	}
+	switch variant {
+	case 0, 1:
+		cache, fds := 0, 0
+		if variant == 1 {
+			cache, fds = 12*1024*1024+1, 1
+		}
+		limits := func(string) (int, int) { return cache, fds }
+		var p kvdb.IterableDBProducer
+		if kind == "ldb" {
+			p = leveldb.NewProducer(root, limits)
+		} else {
+			p = pebble.NewProducer(root, limits)
+		}
+		fi.viaProducer, fi.names = true, p.Names
+		db, err = p.OpenDB("db")
+	case 2:
+		db, err = open(1<<30, 1000, closeFn, dropFn)
+	case 3:
+		db, err = open(1, 16, nil, nil)
+	default:
+		db, err = open(153*1024*1024, 15, closeFn, nil)
+	}
+	if err != nil {
+		os.RemoveAll(root)
+		panic(err)
+	}
+	return &engine{db: db, dir: root}, fi
+}
+
+func mustPanic(what string, f func()) {
+	defer func() {
+		if recover() == nil {
+			panic("expected a panic: " + what)
+		}
+	}()
+	f()
+}
+
+// finish closes and drops a fresh engine, checking the second-use contracts of leveldb.go/pebble.go:
+// Drop before Close panics, Close runs the close callback once, a second Close panics, Drop runs the
+// drop callback once / removes the producer's directory.
+func (fi *freshInfo) finish(e *engine, stat func(string)) {
+	type dropper interface{ Drop() }
+	if e.dead {
+		os.RemoveAll(e.dir)
+		return
+	}
+	if fi.viaProducer {
+		found := false
+		for _, n := range fi.names() {
+			found = found || n == "db"
+		}
+		if !found {
+			panic("producer.Names() does not list the open database")
+		}
+	}
+	mustPanic("Drop before Close", func() { e.db.(dropper).Drop() })
+	if err := e.db.Close(); err != nil {
+		panic("Close: " + err.Error())
+	}
+	if fi.hasCloseFn && fi.closeCalls != 1 {
+		panic("close callback calls = " + strconv.Itoa(fi.closeCalls))
+	}
+	mustPanic("second Close", func() { _ = e.db.Close() })
+	e.db.(dropper).Drop()
+	if fi.hasDropFn && fi.dropCalls != 1 {
+		panic("drop callback calls = " + strconv.Itoa(fi.dropCalls))
+	}
+	if fi.viaProducer {
+		if _, err := os.Stat(e.dir + "/db"); err == nil {
+			panic("producer drop left the directory")
+		}
+		for _, n := range fi.names() {
+			if n == "db" {
+				panic("producer.Names() lists a dropped database")
+			}
+		}
+	}
+	stat("engine_close_drop_checked")
+	os.RemoveAll(e.dir)
+}
+
 func openAt(kind, dir string) (kvdb.Store, error) {
 	switch kind {
 	case "ldb":
@@ -174,6 +299,13 @@ func openAt(kind, dir string) (kvdb.Store, error) {
 		return pebble.New(dir, 64*1024*1024, 0, nil, nil)
 	}
 	return nil, fmt.Errorf("bad engine kind %s", kind)
+}
+
+func (e *engine) reopenPath() string {
+	if _, err := os.Stat(e.dir + "/db"); err == nil {
+		return e.dir + "/db"
+	}
+	return e.dir
 }
 
 func (e *engine) reopen(kind string) (err error) {
@@ -187,7 +319,7 @@ func (e *engine) reopen(kind string) (err error) {
 		e.dead = true
 		return err
 	}
-	db, err := openAt(kind, e.dir)
+	db, err := openAt(kind, e.reopenPath())
 	if err != nil {
 		e.dead = true
 		return err
@@ -291,11 +423,21 @@ type Stack struct {
 	eng    *engine
 	kind   string
 	fresh  bool
+	finfo  *freshInfo
 	hcache map[string]kvdb.Store
+	shared sync.RWMutex // one mutex shared by every extra synced wrapper of the history
+	stat   func(string)
+	memNS  *memNS
 }
 
-func Build(header []string) *Stack {
-	s := &Stack{flus: map[int]flusher{}, hcache: map[string]kvdb.Store{}}
+// memory base through memorydb.NewProducer: two producers of one namespace share the fake FS
+type memNS struct {
+	ns     string
+	p1, p2 kvdb.IterableDBProducer
+}
+
+func Build(header []string, stat func(string)) *Stack {
+	s := &Stack{flus: map[int]flusher{}, hcache: map[string]kvdb.Store{}, stat: stat}
 	var base kvdb.Store
 	switch header[0] {
 	case "mem":
@@ -304,12 +446,33 @@ func Build(header []string) *Stack {
 		s.eng = acquire(header[0])
 		s.kind = header[0]
 		base = s.eng.db
-	case "ldb!", "pbl!": // a fresh instance in its own temp dir, closed and removed after this history
-		s.eng = openEngine(header[0][:3])
-		s.kind = header[0][:3]
-		s.fresh = true
-		base = s.eng.db
+	case "mem!":
+		nsCounter++
+		ns := "vh-ns-" + strconv.Itoa(nsCounter)
+		m := &memNS{ns: ns, p1: memorydb.NewProducer(ns), p2: memorydb.NewProducer(ns)}
+		db1, _ := m.p1.OpenDB("a")
+		db2, _ := m.p2.OpenDB("a")
+		db3, _ := memorydb.NewProducer("").OpenDB("a")
+		if db1 != db2 {
+			panic("two producers of one namespace opened different stores")
+		}
+		if db1 == db3 {
+			panic("a producer with an empty namespace shares its store")
+		}
+		if n := m.p2.Names(); len(n) != 1 || n[0] != "a" {
+			panic("memorydb producer Names()")
+		}
+		s.memNS = m
+		base = db1
+		stat("mem_producer_namespace")
 	default:
+		if len(header[0]) == 5 && header[0][3] == '!' && (header[0][:3] == "ldb" || header[0][:3] == "pbl") {
+			s.kind = header[0][:3]
+			s.eng, s.finfo = freshEngine(s.kind, int(header[0][4]-'0'), stat)
+			s.fresh = true
+			base = s.eng.db
+			break
+		}
 		panic("bad base " + header[0])
 	}
 	s.rec = &recStore{Store: base}
@@ -353,10 +516,26 @@ func Build(header []string) *Stack {
 func (s *Stack) Close() {
 	if s.eng != nil {
 		if s.fresh {
-			s.eng.close()
+			s.finfo.finish(s.eng, s.stat)
 		} else {
 			release(s.eng)
 		}
+	}
+	if s.memNS != nil {
+		// second use of the memory producer: Close then Drop removes the store from the namespace
+		type closeDropper interface {
+			Close() error
+			Drop()
+		}
+		db, _ := s.memNS.p1.OpenDB("a")
+		if err := db.(closeDropper).Close(); err != nil {
+			panic("memorydb Close: " + err.Error())
+		}
+		db.(closeDropper).Drop()
+		if n := s.memNS.p2.Names(); len(n) != 0 {
+			panic("memorydb producer lists a dropped store")
+		}
+		s.stat("mem_producer_close_drop")
 	}
 }
 
@@ -531,6 +710,44 @@ func (s *Stack) Run(ops [][]string, stat func(string)) (obs []string) {
 		}
 		g.scribble()
 	}
+	// ethdb.Iterator: "Release ... can be called multiple times without causing error": every iterator
+	// is released twice; a panic on the second call is counted, not judged (outside the properties)
+	release2 := func(it kvdb.Iterator, where string) {
+		it.Release()
+		func() {
+			defer func() {
+				if recover() != nil {
+					stat("double_release_panics_" + where)
+				}
+			}()
+			it.Release()
+			stat("double_release_ok")
+		}()
+	}
+	_ = release2
+	opno := 0
+	// every third read goes through an extra synced.WrapIteratedReader sharing one mutex with all
+	// other extra synced wrappers of the history (identity on values)
+	reader := func(tok string) kvdb.IteratedReader {
+		opno++
+		h := s.handle(tok)
+		if opno%3 == 0 {
+			stat("synced_iterated_reader")
+			return synced.WrapIteratedReader(h, &s.shared)
+		}
+		return h
+	}
+	tableTok := func(tok string) bool {
+		if strings.Contains(tok, "/") {
+			return true
+		}
+		d, _ := strconv.Atoi(tok)
+		if d >= 0 && d < len(s.levels) {
+			_, ok := s.levels[d].(*table.Table)
+			return ok
+		}
+		return false
+	}
 	hasB := func(b bool) string {
 		if b {
 			return "1"
@@ -547,13 +764,16 @@ func (s *Stack) Run(ops [][]string, stat func(string)) (obs []string) {
 			if len(o[3]) > 0 && o[3][0] == '*' {
 				stat("put_big_value")
 			}
+			if o[2] == "-" && tableTok(o[1]) {
+				stat("table_empty_key_put")
+			}
 			fail("put", s.handle(o[1]).Put(g.arg(o[2]), g.arg(o[3])))
 			done("put")
 		case "del":
 			fail("del", s.handle(o[1]).Delete(g.arg(o[2])))
 			done("del")
 		case "get":
-			v, err := s.handle(o[1]).Get(g.arg(o[2]))
+			v, err := reader(o[1]).Get(g.arg(o[2]))
 			fail("get", err)
 			obs = append(obs, "G", OTok(v))
 			done("get")
@@ -564,7 +784,7 @@ func (s *Stack) Run(ops [][]string, stat func(string)) (obs []string) {
 				}
 			}
 		case "has":
-			b, err := s.handle(o[1]).Has(g.arg(o[2]))
+			b, err := reader(o[1]).Has(g.arg(o[2]))
 			fail("has", err)
 			obs = append(obs, "H", hasB(b))
 			done("has")
@@ -573,10 +793,13 @@ func (s *Stack) Run(ops [][]string, stat func(string)) (obs []string) {
 			var n int
 			var err error
 			func() {
-				it := s.handle(o[1]).NewIterator(g.arg(o[2]), g.arg(o[3]))
-				defer it.Release() // also when draining panics: a leaked iterator blocks engine Close
+				it := reader(o[1]).NewIterator(g.arg(o[2]), g.arg(o[3]))
+				defer release2(it, "it") // also when draining panics: a leaked iterator blocks engine Close
 				kv, n, err = drain(it, -1)
 			}()
+			if n > 0 && kv[0] == "-" && tableTok(o[1]) {
+				stat("table_iter_empty_key")
+			}
 			fail("it", err)
 			obs = append(obs, "I", strconv.Itoa(n))
 			obs = append(obs, kv...)
@@ -615,6 +838,11 @@ func (s *Stack) Run(ops [][]string, stat func(string)) (obs []string) {
 			}
 			obs = append(obs, "R", strconv.Itoa(n))
 			obs = append(obs, r.out...)
+			for i, t := range r.out {
+				if (t == "P" || t == "D") && r.out[i+1] == "-" && tableTok(slot(o[1], false).h) {
+					stat("table_replay_empty_key")
+				}
+			}
 		case "flush":
 			d, _ := strconv.Atoi(o[1])
 			if f := s.flus[d]; f != nil {
@@ -622,7 +850,7 @@ func (s *Stack) Run(ops [][]string, stat func(string)) (obs []string) {
 					stat("flush_nonempty")
 				}
 				if f.NotFlushedSizeEst() > kvdb.IdealBatchSize {
-					stat("flush_splits_batch")
+					stat("flush_over_ideal_batch_size")
 				}
 				fail("flush", f.Flush())
 			}
@@ -648,6 +876,10 @@ func (s *Stack) Run(ops [][]string, stat func(string)) (obs []string) {
 		case "snap":
 			sn, err := s.handle(o[1]).GetSnapshot()
 			fail("snap", err)
+			if len(snaps)%2 == 1 && err == nil {
+				sn = synced.WrapSnapshot(sn, &s.shared)
+				stat("synced_wrap_snapshot")
+			}
 			snaps = append(snaps, sn)
 		case "sget", "shas", "sit":
 			i, _ := strconv.Atoi(o[1])
@@ -671,7 +903,7 @@ func (s *Stack) Run(ops [][]string, stat func(string)) (obs []string) {
 				var err error
 				func() {
 					it := sn.NewIterator(g.arg(o[2]), g.arg(o[3]))
-					defer it.Release()
+					defer release2(it, "sit")
 					kv, n, err = drain(it, -1)
 				}()
 				fail("sit", err)
@@ -699,6 +931,18 @@ func (s *Stack) Run(ops [][]string, stat func(string)) (obs []string) {
 				obs = append(obs, "E", "ok")
 			}
 			done("ecompact")
+		case "stat":
+			props := []string{"disk.size", "stats", "iostats", "async_flush", "sync_flush", "alivesnaps"}
+			n, _ := strconv.Atoi(o[2])
+			prop := "no-such-property"
+			if n < len(props) {
+				prop = props[n]
+			}
+			if _, err := s.handle(o[1]).Stat(prop); err != nil {
+				obs = append(obs, "S", "err")
+			} else {
+				obs = append(obs, "S", "ok")
+			}
 		case "reopen":
 			if s.eng == nil || len(snaps) > 0 || len(live) > 0 {
 				stat("reopen_skipped")
@@ -708,6 +952,9 @@ func (s *Stack) Run(ops [][]string, stat func(string)) (obs []string) {
 				panic("reopen: " + err.Error())
 			}
 			s.rec.Store = s.eng.db
+			if s.finfo != nil { // the reopened instance has no callbacks and was not opened by the producer
+				s.finfo.hasCloseFn, s.finfo.hasDropFn, s.finfo.viaProducer = false, false, false
+			}
 			for _, sl := range slots { // engine batches of the closed instance are dead: rebuild lazily
 				sl.stale = true
 			}
@@ -779,7 +1026,7 @@ func Split(input []string) (header []string, ops [][]string) {
 // RunCase = Split + Build + Run + Close.
 func RunCase(input []string, stat func(string)) []string {
 	header, ops := Split(input)
-	s := Build(header)
+	s := Build(header, stat)
 	defer s.Close()
 	stat("base_" + header[0])
 	return s.Run(ops, stat)
